@@ -9,7 +9,9 @@ Generated
            |J| mu in 10^[-3,6], arg J in [-pi/2,0]; scalar call or arrays of 2..6 elements.
   quick    `quick_tidal_dissipation` states (shared generator of C10: l_max 2..3 (thorough ..7), truncation
            levels, spin states, obliquity, every rheology incl. CPL/CTL, scalar/array).
-  solver   the same uniform body as `formula`, solved by `TidalPy.RadialSolver.radial_solver`
+  solver   a BATCH of 2..4 (degree, m_l, w tau, w) members on one planet and rheology, each the same uniform body as `formula`,
+           solved by `TidalPy.RadialSolver.radial_solver`; all solution objects and the Love-number arrays read from them
+           stay alive until the whole batch is solved and are only then read back and judged
            (one solid static layer, Kamata starting conditions, DOP853, bulk modulus 10^[5,7] x max(|mu~|,
            rho g R) i.e. effectively incompressible - the static/incompressible combination itself raises
            NotImplementedError -, r0/R in [0.05,0.3], 20..80 slices, complex shear mu~ = 1/J).
@@ -38,7 +40,10 @@ Oracles
              unless the degree's own frequency dependence is as large as the error; a different but correct grouping
              (e.g. `n_sig = n_coeff`) does not fire.
              The quick_tidal_dissipation call must not modify its keyword arguments (inputs_not_mutated).
-  solver     |k_RS - k_closed| <= 1e-6 + 50 delta + 3 (|mu~| + rho g R)/K,  delta = |k(rtol=1e-7) - k(rtol=1e-9)|
+  solver     (every stored solution of the batch, read back after the whole batch) (k, h, l) re-read from the stored solution
+             object, and the array views taken right after its own call, are bit-identical to the values read right after that
+             call (`stored_solution_changed`); and
+             |k_RS - k_closed| <= 1e-6 + 50 delta + 3 (|mu~| + rho g R)/K,  delta = |k(rtol=1e-7) - k(rtol=1e-9)|
              (atol = 1e-4 rtol); discarded (counted) if a solve reports success=False or delta > 1e-4.
              Calibration (105 generated cases): delta <= 5e-9, error <= 1.6e-7 and <= 0.015 (|mu~|+rho g R)/K, i.e.
              <= 0.5 % of the tolerance; the precedence defect a47eb3a moves k by 1e-3 (stiff) .. 0.3 (intermediate).
@@ -55,6 +60,7 @@ Sensitivity (tools/mut.py, quick tier, all CAUGHT):
   mode_manipulation.py 'order_l=tidal_order_l\n                )\n\n        # Pull' i.e. collapse_modes passing order_l=2
              for every degree                                       -> quick (l = 3)
   seeded/C12-1 (tabulated (2l^2+4l+3)/l with a typo)              -> rigidity, love
+  seeded/C12-3 (all RadialSolverSolution objects share one static Love-number buffer)   -> solver (stored_solution_changed, k_l)
   seeded/C12-2 (Love number memoised per frequency signature without the degree) -> quick (l>2, hull)
   Equivalent mutant, must be MISSED (and is): mode_manipulation.py 'n_sig = abs(n_coeff)' -> 'n_sig = n_coeff' (more
   frequency signatures per frequency; only the repository's per-degree average changes).
@@ -182,6 +188,9 @@ def strategy(tier):
         'material': _material_strategy([r for r in SOLVER_RHEOS if r in rheos or r == 'raw']),
         'pts': st.lists(st.fixed_dictionaries({'log_ml': st.floats(-2.0, 3.0), 'log_wtau': st.floats(-3.0, 4.0),
                                                'log_freq': st.floats(-7.0, -3.0)}), min_size=1, max_size=1),
+        'batch': st.lists(st.fixed_dictionaries({'l': st.integers(2, 7 if tier == 'thorough' else 6),
+                                                 'log_ml': st.floats(-2.0, 3.0), 'log_wtau': st.floats(-3.0, 4.0),
+                                                 'log_freq': st.floats(-7.0, -3.0)}), min_size=1, max_size=3),
         'r0_frac': st.floats(0.05, 0.3), 'slices': st.integers(20, 80), 'log_K_factor': st.floats(5.0, 7.0)})
     quick = tc.tide_case_strategy(tier, kinds=('single',), finding_weight=0.25).map(lambda c: dict(c, kind='quick'))
     kinds = [formula, quick, solver]
@@ -206,7 +215,7 @@ def fixed_cases(tier):
 
 
 def required_labels(tier):
-    return ['kind:formula', 'kind:quick', 'kind:solver', 'solver:converged', 'array', 'scalar', 'quick:single_freq',
+    return ['kind:formula', 'kind:quick', 'kind:solver', 'solver:converged', 'solver:batch2', 'solver:batch3', 'solver:batch4', 'array', 'scalar', 'quick:single_freq',
             'quick:multi_freq'] + ['l:%d' % l for l in range(2, 8)] + ['regime:stiff', 'regime:mid', 'regime:soft']
 
 
@@ -224,6 +233,11 @@ def in_domain(case):
                 and mat['rheology'] in SOLVER_RHEOS and len(case['pts']) == 1 and 0.05 <= case['r0_frac'] <= 0.3 \
                 and 20 <= case['slices'] <= 80 and 5.0 <= case['log_K_factor'] <= 7.0
             rng = ((-2.0, 3.0), (-3.0, 4.0), (-7.0, -3.0))
+        if case['kind'] == 'solver' and 'batch' in case:
+            ok = ok and 1 <= len(case['batch']) <= 3
+            for p in case['batch']:
+                ok = ok and 2 <= p['l'] <= 7 and rng[0][0] <= p['log_ml'] <= rng[0][1] and rng[1][0] <= p['log_wtau'] <= rng[1][1] \
+                    and rng[2][0] <= p['log_freq'] <= rng[2][1]
         for p in case['pts']:
             ok = ok and rng[0][0] <= p['log_ml'] <= rng[0][1] and rng[1][0] <= p['log_wtau'] <= rng[1][1] \
                 and rng[2][0] <= p['log_freq'] <= rng[2][1]
@@ -422,6 +436,8 @@ def _evaluate_quick(case):
 
 
 def _rs_solve(l, R, rho, mu_c, K, freq, r0_frac, slices, rtol):
+    """One radial_solver call.  Returns the solution OBJECT (kept alive by the caller), the Love-number arrays read from
+    it right now (views into the solution, also kept) and python-complex copies of k, h, l taken right now."""
     from TidalPy.RadialSolver import radial_solver
     r = np.linspace(r0_frac * R, R, slices)
     dens = rho * np.ones(slices)
@@ -433,44 +449,108 @@ def _rs_solve(l, R, rho, mu_c, K, freq, r0_frac, slices, rtol):
                         integration_rtol=rtol, integration_atol=rtol * 1e-4, scale_rtols_by_layer_type=False,
                         max_num_steps=300_000, expected_size=250, max_step=0, limit_solution_to_radius=True,
                         verbose=False, nondimensionalize=True)
-    if not out.success:
-        return None, str(out.message)
-    return complex(out.k[0]), ''
+    rec = {'sol': out, 'success': bool(out.success), 'message': str(out.message), 'views': None, 'now': None}
+    if rec['success']:
+        views = (out.k, out.h, out.l)
+        rec['views'] = views
+        rec['now'] = tuple(complex(np.asarray(v).ravel()[0]) for v in views)
+    return rec
+
+
+def _same(a, b):
+    return a == b or (a != a and b != b)
+
+
+def _solver_members(case):
+    """The batch of (l, point) solved for one case: the case's own degree/material point plus 1..3 generated others on the
+    same planet and rheology (older replay files without a batch get one deterministic companion)."""
+    members = [(int(case['l']), case['pts'][0])]
+    if 'batch' in case:
+        members += [(int(m['l']), m) for m in case['batch']]
+    else:
+        p = case['pts'][0]
+        members.append((2 + (int(case['l']) - 1) % 5, dict(p, log_ml=min(3.0, p['log_ml'] + 0.5))))
+    return members
 
 
 def _evaluate_solver(case):
+    """Layered-solver clause on a small BATCH: every member is solved (twice: rtol 1e-7 and 1e-9), all solution objects and
+    the arrays read from them stay alive, and only after the whole batch is every stored solution compared with its own
+    closed form - the way a user who solves one body per degree / frequency and post-processes afterwards reads them.
+    The Love numbers re-read from a stored solution (and the array views taken earlier) must still be what they were
+    right after that solution's own call."""
     love1d = _love_mod()
-    l = int(case['l'])
     R, rho = 10.0 ** case['log_R'], 10.0 ** case['log_rho']
     g = 4.0 * math.pi * tc.G_SI * rho * R / 3.0
-    mu, J, rh = _material(case, g, R, rho)
-    mj, Jj = float(mu[0]), complex(J[0])
-    labels = ['kind:solver', 'l:%d' % l, 'rheo:' + rh, 'scalar']
-    if not (math.isfinite(Jj.real) and math.isfinite(Jj.imag) and 0 < abs(Jj) < 1e90):
+    rh = case['material']['rheology']
+    members = _solver_members(case)
+    labels = ['kind:solver', 'rheo:' + rh, 'scalar', 'solver:batch%d' % len(members)]
+    prepared = []
+    for l, pt in members:
+        sub = dict(case, l=l, pts=[pt])
+        mu, J, _ = _material(sub, g, R, rho)
+        mj, Jj = float(mu[0]), complex(J[0])
+        if not (math.isfinite(Jj.real) and math.isfinite(Jj.imag) and 0 < abs(Jj) < 1e90):
+            continue
+        mu_c = 1.0 / Jj
+        K = 10.0 ** case['log_K_factor'] * max(abs(mu_c), rho * g * R)
+        prepared.append({'l': l, 'mu': mj, 'J': Jj, 'mu_c': mu_c, 'K': K, 'freq': 10.0 ** pt['log_freq']})
+        labels.append('l:%d' % l)
+    labels = list(dict.fromkeys(labels))
+    if not prepared:
         return discard('nonfinite_compliance', labels)
-    mu_c = 1.0 / Jj
-    K = 10.0 ** case['log_K_factor'] * max(abs(mu_c), rho * g * R)
-    freq = 10.0 ** case['pts'][0]['log_freq']
-    with repo_call('love1d helpers'):
-        eff = float(love1d.effective_rigidity_general(mj, g, R, rho, order_l=l))
-        k_closed = complex(love1d.complex_love_general(Jj, mj, eff, order_l=l))
+    # ---- solve the whole batch first, keep everything alive -------------------------------------------------------------
     with repo_call('radial_solver'):
-        k1, msg1 = _rs_solve(l, R, rho, mu_c, K, freq, case['r0_frac'], int(case['slices']), 1e-7)
-        k2, msg2 = _rs_solve(l, R, rho, mu_c, K, freq, case['r0_frac'], int(case['slices']), 1e-9)
-    if k1 is None or k2 is None:
-        return discard('solver_failed', labels)
-    delta = abs(k1 - k2)
-    if not (delta <= 1e-4):
-        return discard('unconverged', labels)
-    c = Collector(labels=labels + ['solver:converged'])
-    zabs = abs(eff / (Jj * mj))
-    c.label('regime:stiff' if zabs > 10 else ('regime:soft' if zabs < 0.1 else 'regime:mid'))
-    c.nontrivial = 0.01 < zabs < 100.0
-    tol = 1e-6 + 50.0 * delta + 3.0 * (abs(mu_c) + rho * g * R) / K
-    err = abs(k2 - k_closed)
-    c.check(err <= tol, {'clause': 'solver', 'what': 'k_l'},
-            'l=%d R=%r rho=%r mu~=%r K=%r: radial_solver k=%r, closed-form helper k=%r, |diff|=%.3e tol=%.3e (delta=%.1e)'
-            % (l, R, rho, mu_c, K, k2, k_closed, err, tol, delta))
+        for m in prepared:
+            m['coarse'] = _rs_solve(m['l'], R, rho, m['mu_c'], m['K'], m['freq'], case['r0_frac'], int(case['slices']), 1e-7)
+            m['fine'] = _rs_solve(m['l'], R, rho, m['mu_c'], m['K'], m['freq'], case['r0_frac'], int(case['slices']), 1e-9)
+    # ---- only now read them back and judge ----------------------------------------------------------------------------------
+    c = Collector(labels=labels)
+    nontrivial = False
+    judged = 0
+    for i, m in enumerate(prepared):
+        l = m['l']
+        if not (m['coarse']['success'] and m['fine']['success']):
+            c.label('solver:member_failed')
+            continue
+        stable = True
+        for which in ('coarse', 'fine'):
+            rec = m[which]
+            with repo_call('RadialSolverSolution.k/.h/.l'):
+                again = tuple(complex(np.asarray(x).ravel()[0]) for x in (rec['sol'].k, rec['sol'].h, rec['sol'].l))
+            held = tuple(complex(np.asarray(v).ravel()[0]) for v in rec['views'])
+            ok = all(_same(a, b) for a, b in zip(again, rec['now'])) and all(_same(a, b) for a, b in zip(held, rec['now']))
+            stable = stable and ok
+            c.check(ok, {'clause': 'solver', 'what': 'stored_solution_changed'},
+                    'batch member %d of %d (l=%d, %s solve): (k, h, l) read right after its own radial_solver call %r; re-read from the '
+                    'stored solution after the rest of the batch %r; array views taken at the time now hold %r'
+                    % (i + 1, len(prepared), l, which, rec['now'], again, held))
+        with repo_call('RadialSolverSolution.k'):
+            k1 = complex(np.asarray(m['coarse']['sol'].k).ravel()[0])
+            k2 = complex(np.asarray(m['fine']['sol'].k).ravel()[0])
+        # the closed form is judged on what the stored solution reports NOW (k2): that is what a post-processing user gets
+        delta = abs(m['coarse']['now'][0] - m['fine']['now'][0])
+        if not (delta <= 1e-4):
+            c.label('solver:member_unconverged')
+            continue
+        with repo_call('love1d helpers'):
+            eff = float(love1d.effective_rigidity_general(m['mu'], g, R, rho, order_l=l))
+            k_closed = complex(love1d.complex_love_general(m['J'], m['mu'], eff, order_l=l))
+        judged += 1
+        zabs = abs(eff / (m['J'] * m['mu']))
+        c.label('regime:stiff' if zabs > 10 else ('regime:soft' if zabs < 0.1 else 'regime:mid'))
+        nontrivial = nontrivial or (0.01 < zabs < 100.0)
+        tol = 1e-6 + 50.0 * delta + 3.0 * (abs(m['mu_c']) + rho * g * R) / m['K']
+        err = abs(k2 - k_closed)
+        c.check(err <= tol, {'clause': 'solver', 'what': 'k_l'},
+                'batch member %d of %d: l=%d R=%r rho=%r mu~=%r K=%r: stored radial_solver solution reports k=%r (coarse solve %r), '
+                'closed-form helper k=%r, |diff|=%.3e tol=%.3e (delta=%.1e)'
+                % (i + 1, len(prepared), l, R, rho, m['mu_c'], m['K'], k2, k1, k_closed, err, tol, delta))
+    if judged == 0:
+        return discard('solver_failed' if any(not (m['coarse']['success'] and m['fine']['success']) for m in prepared)
+                       else 'unconverged', labels)
+    c.label('solver:converged')
+    c.nontrivial = nontrivial
     return c.result()
 
 
